@@ -30,7 +30,7 @@ def demo_cmds():
     cmds = []
     for u in untracked:
         m = re.match(r'tests/(\w+)\.rs$', u)
-        if m: cmds.append(f'cargo test --offline --test {m.group(1)}')
+        if m: cmds.append(f'cargo test --offline {os.environ.get("DEMO_FLAGS", "")} --test {m.group(1)}')
         m = re.match(r'examples/(\w+)\.rs$', u)
         if m: cmds.append(f'cargo run --offline --example {m.group(1)}')
     return cmds
